@@ -26,7 +26,7 @@ def e2e(families, quick_cases, thorough_cases, configs="w2,w3", schedules=2, lab
         t.update(extra)
     return {"sub": "e2e", "quick": q, "thorough": t, "timeout": 7000}
 
-E2E_RULE = ("blocks are generated from a typed mini-language (families: mixed transfers/data-dependent storage/beneficiary roles; lifecycle selfdestruct/EIP-161/recreate; code deploy + EIP-7702 set/re-point/clear; invalid transactions of every kind with in-block-dependent validity; custom precompiles), 2-10 txs on few accounts so that conflicts are forced, specs Frontier..Osaka; "
+E2E_RULE = ("blocks are generated from a typed mini-language (families: mixed transfers/data-dependent storage/beneficiary roles; lifecycle selfdestruct/EIP-161/recreate; code deploy + EIP-7702 set/re-point/clear; invalid transactions of every kind with in-block-dependent validity, incl. transactions with two defects whose reported reason must be the one revm tests first; custom precompiles incl. a vault on a codeless account that is stored into, emptied (EIP-161) and read back; fee recipients that are destroyed and re-created in the block), 2-10 txs on few accounts so that conflicts are forced, specs Frontier..Osaka; "
             "each block runs free (OS scheduling) and under seeded controller schedules (random / PCT / sticky) per configuration; oracle = in-order stock revm; compared: every outcome, status, full bundle (state, original values, statuses, contracts, reverts, size accounting) and every applied commit (result + state changes) against the in-order transaction; distinct = distinct (spec, tx list); non-trivial = all (>= 2 txs touching shared accounts)")
 
 WITNESS = {"sub": "witness", "quick": {}, "thorough": {}, "timeout": 600}
@@ -172,7 +172,7 @@ PROPS = {
     "C12": {
         "lean_modules": ["Props.C12"],
         "harness": [e2e("delegated,code,lifecycle", 240, 6000, configs="w2,w3,seq", label="create-guard")],
-        "rule": "delegated family: EIP-7702 delegated accounts (delegates: payer, payer+refund router, CREATE creator, CREATE2 creator, self-destructor, a contract that DELEGATECALLs the creator) called by sponsors, by themselves, nested with value, through STATICCALL, through an ordinary contract that DELEGATECALLs the delegated account, through a reverting inner frame; ordinary-context calls of the same contracts; in-block re-pointing / clearing of a delegation; specs Shanghai, Cancun (policies must be inert), Prague, Osaka; the four policy combinations; oracle = stock revm whose CREATE/CREATE2 consult the decision table exported by the Lean model (Guard.effective over the observed static / create2 / spec / designator-in-context-account bits) and are the stock instruction otherwise; " + E2E_RULE,
+        "rule": "delegated family: EIP-7702 delegated accounts (reached from call transactions AND from the init code of contract-creation transactions; delegates: payer, payer+refund router, CREATE creator, CREATE2 creator, self-destructor, a contract that DELEGATECALLs the creator) called by sponsors, by themselves, nested with value, through STATICCALL, through an ordinary contract that DELEGATECALLs the delegated account, through a reverting inner frame; ordinary-context calls of the same contracts; in-block re-pointing / clearing of a delegation; specs Shanghai, Cancun (policies must be inert), Prague, Osaka; the four policy combinations; oracle = stock revm whose CREATE/CREATE2 consult the decision table exported by the Lean model (Guard.effective over the observed static / create2 / spec / designator-in-context-account bits) and are the stock instruction otherwise; " + E2E_RULE,
         "trusted_base": E2E_TRUST,
         "modelled": ["guarded_create (src/delegated_safety/instructions.rs): order of the static, pre-Petersburg and designator checks", "the table swap in create_evm (src/scheduler/executor.rs) and DelegatedSafetyConfig::for_spec"],
         "assumptions": ["`load_account_delegated(target).is_delegate_account_cold.is_some()` iff the context account's code is an EIP-7702 designator (the oracle decides this independently from the code bytes)", "all opcodes other than CREATE/CREATE2 come from EthInstructions::new_mainnet_with_spec unchanged (structural; exercised by the comparison with stock revm on every block)"],
